@@ -56,7 +56,10 @@ func runMergerFamily(ctx *Ctx, prop string) error {
 	for _, c := range mergerCorpus() {
 		run(c)
 	}
-	n := 220 * ctx.Budget
+	n := 800
+	if ctx.Thorough() {
+		n = 12000
+	}
 	for k := 0; k < n; k++ {
 		r := ctx.Rand.Fork()
 		inject := ""
